@@ -6,6 +6,7 @@ Core's script vectors) by the bounded check C03.handler_specs_vs_core in c03_spe
 from pyvc.api import *
 from spec.core import *
 from spec.scriptnum import *
+from spec.sighash import sha256, sha1, ripemd160
 from pycoin.coins.bitcoin.VM import BitcoinVM
 from pycoin.vm.ConditionalStack import ConditionalStack
 from pycoin.vm.VM import conditional_error_f
@@ -95,6 +96,7 @@ def register(name, cls):
     c = REG.contracts[target]
     c.sig = {p: VM}
     c.param_alias = {p: 'vm'}
+    REG.by_func.setdefault(id(f), c)
     _REGISTERED.append(target)
     return cls
 
@@ -134,6 +136,12 @@ stack_op("OP_DEPTH", 0, lambda s: s + (scriptnum_enc(len(s)),))
 stack_op("OP_SIZE", 1, lambda s: s + (scriptnum_enc(len(s[len(s) - 1])),))
 stack_op("OP_EQUAL", 2, lambda s: s[:len(s) - 2] + (boolbytes(s[len(s) - 2] == s[len(s) - 1]),))
 
+# hash opcodes: the digests are uninterpreted functions of the operand (hashlib is trusted, see C19 for the pure-Python RIPEMD-160)
+stack_op("OP_RIPEMD160", 1, lambda s: s[:len(s) - 1] + (ripemd160(s[len(s) - 1]),))
+stack_op("OP_SHA1", 1, lambda s: s[:len(s) - 1] + (sha1(s[len(s) - 1]),))
+stack_op("OP_SHA256", 1, lambda s: s[:len(s) - 1] + (sha256(s[len(s) - 1]),))
+stack_op("OP_HASH160", 1, lambda s: s[:len(s) - 1] + (ripemd160(sha256(s[len(s) - 1])),))
+stack_op("OP_HASH256", 1, lambda s: s[:len(s) - 1] + (sha256(sha256(s[len(s) - 1])),))
 
 # ------------------------------------------------------------------ numeric operators (4-byte operands, MINIMALDATA)
 def num_op(name, arity, fn, is_bool):
